@@ -67,12 +67,31 @@ def gen_case(rng):
     return required, pats, asts, depth, priority
 
 
+def gen_alternatives_case(rng):
+    """a union of 2-3 WORDS of different lengths, each containing the required symbols in order (fillers before,
+    between and after them): the shortest completion depends on which alternative the search settles on"""
+    required = [rng.choice("abc") for _ in range(rng.choice([1, 1, 2]))]
+    words = []
+    for _ in range(rng.choice([2, 2, 3])):
+        w = []
+        for r in required:
+            w += [rng.choice("abc") for _ in range(rng.choice([0, 0, 1, 2]))] + [r]
+        w += [rng.choice("abc") for _ in range(rng.choice([0, 0, 1, 2]))]
+        words.append(" ".join(w))
+    pat = " | ".join(words)
+    if rng.random() < 0.3:
+        pat = "( %s ) $" % pat
+    depth = rng.choice([1, 2, 3, 4])
+    priority = rng.choice([[], [], ["a"], ["c", "a"], ["b"], ["c"]])
+    return required, [pat], [ref.parse(pat)], depth, priority
+
+
 class Prop(object):
     id = "C19"
     lean_modules = ["VC2.Props.C19"]
     status = "partial"
     rule = ("make_matching_sequence on random pattern sets (1-2 patterns, AST size <= 5 over {a,b,c,.}, optional trailing $) x required "
-            "lists of length 0-3 x depth limits 0-3 x priorities, and on the real (level pattern x test-case pattern x picture-list) "
+            "lists of length 0-3 x depth limits 0-3 x priorities, on unions of 2-3 words of different lengths that each contain the required symbols, and on the real (level pattern x test-case pattern x picture-list) "
             "combinations; the model's result (symbol list or IMPOSSIBLE) is compared with the real one; distinct = distinct op lines")
     trusted = ["hand-written model lean/VC2/Model/SymRe.lean (search part) tied to the code by this correspondence",
                "the reference completion search (harness/symre_ref.py) is used only to look for failing inputs / attribute known finding F5"]
@@ -81,6 +100,8 @@ class Prop(object):
     def cases(self, ctx, rng, n):
         for _ in range(n):
             yield gen_case(rng) + (["a", "b", "c"],)
+        for _ in range(n // 3):
+            yield gen_alternatives_case(rng) + (["a", "b", "c"],)
         # exhaustive small family: all ordered pairs from a pool x all required lists of length <= 2
         pool = ["a", "a b", ". .", ". . .", "a . *", ". * b", "( a | b ) *", "a b . *", "a ? b", ". a", "b . *", "a b $"]
         for p1 in pool:
@@ -159,8 +180,8 @@ class Prop(object):
     def search(self, ctx):
         rng = ctx.rng("search")
         pending = []   # incomplete / longer answers: F5's only when the greedy model gives the same answer
-        for _ in range(ctx.n(3000, 30000)):
-            required, pats, asts, depth, priority = gen_case(rng)
+        for i in range(ctx.n(4000, 40000)):
+            required, pats, asts, depth, priority = gen_alternatives_case(rng) if i % 4 == 3 else gen_case(rng)
             res = real_mms(required, pats, depth, priority)
             c = classify(required, pats, asts, depth, priority, ["a", "b", "c"], res)
             if c is None:
